@@ -88,3 +88,62 @@ pub fn fees(seed: u64) -> Vec<Scenario> {
     add(Tier::Quick, format!("open.{}", p.clone().native().tag()), d, 600, 150, Box::new(t_open(p.clone().native())));
     v
 }
+
+/// C04: closes after price moves / funding, with and without fees
+pub fn c04(seed: u64) -> Vec<Scenario> {
+    let prop = "C04";
+    let mut v: Vec<Scenario> = vec![];
+    let mut add = |tier: Tier, name: String, desc: &str, paths: u64, secs: u64, f: Box<dyn Fn()>| {
+        v.push(sc(prop, tier, &format!("c04.{}", name), desc, paths, secs, f));
+    };
+    let d = "close after a counter-party moved the price by a symbolic amount (either direction), optionally after a funding settlement with a symbolic oracle price, with and without fees; equity = margin + (vAMM quote - open notional, signed) - funding recomputed from queries made before the close";
+    for side in [Buy, Sell] {
+        let p = P::new(prop, side.clone(), seed);
+        let pc = p.clone().concrete_prefix();
+        add(Tier::Quick, format!("close.against.{}", p.tag()), d, 400, 150, Box::new(t_close(pc.clone(), false)));
+        add(Tier::Quick, format!("close.with.{}", p.tag()), d, 400, 150, Box::new(t_close(pc.clone(), true)));
+        add(Tier::Quick, format!("close.against.{}", p.clone().fees().tag()), d, 400, 150, Box::new(t_close(pc.clone().fees(), false)));
+        add(Tier::Quick, format!("close.against.{}", p.clone().lim().tag()), d, 400, 150, Box::new(t_close(pc.clone().lim(), false)));
+        add(Tier::Quick, format!("fund.close.{}", p.tag()), d, 600, 150, Box::new(t_fund(pc.clone(), 0)));
+        add(Tier::Quick, format!("fund.close.{}", p.clone().fees().tag()), d, 600, 150, Box::new(t_fund(pc.clone().fees(), 0)));
+        for (rn, ru) in [("healthy", 3u128), ("zero-equity", 7), ("bad-debt", 45)] {
+            add(Tier::Quick, format!("close10x.{}.{}", rn, p.tag()), d, 400, 150, Box::new(t_close_regime(pc.clone(), ru)));
+        }
+        add(Tier::Quick, format!("close10x.zero-equity.{}", p.clone().fees().tag()), d, 400, 150, Box::new(t_close_regime(pc.clone().fees(), 7)));
+        add(Tier::Quick, format!("opp.{}", p.tag()), d, 600, 150, Box::new(t_open2(pc.clone(), false)));
+        add(Tier::Quick, format!("depwd.{}", p.tag()), d, 400, 120, Box::new(t_depwd(pc.clone())));
+        add(Tier::Quick, format!("close.against.{}", p.clone().native().tag()), d, 400, 150, Box::new(t_close(pc.clone().native(), false)));
+        add(Tier::Thorough, format!("close.sym.{}", p.clone().fees().tag()), d, 1500, 900, Box::new(t_close(p.clone().fees(), false)));
+        add(Tier::Thorough, format!("fund.close.sym.{}", p.tag()), d, 1500, 900, Box::new(t_fund(p.clone(), 0)));
+    }
+    v
+}
+
+/// C05: margin requirements after opens, withdrawals and deposits
+pub fn c05(seed: u64) -> Vec<Scenario> {
+    let prop = "C05";
+    let mut v: Vec<Scenario> = vec![];
+    let mut add = |tier: Tier, name: String, desc: &str, paths: u64, secs: u64, f: Box<dyn Fn()>| {
+        v.push(sc(prop, tier, &format!("c05.{}", name), desc, paths, secs, f));
+    };
+    let d = "margin and leverage symbolic (leverage over [0, 1000] incl. non-integer multiples and the 1/initial boundary); after every successful open the MarginRatio query is >= maintenance and equals the ratio recomputed from Position / OutputAmount / OutputTwap / cumulative premium; withdraw / deposit accounting";
+    for side in [Buy, Sell] {
+        let p = P::new(prop, side.clone(), seed);
+        let pc = p.clone().concrete_prefix();
+        add(Tier::Quick, format!("open.{}", p.clone().lev().tag()), d, 600, 150, Box::new(t_open(p.clone().lev())));
+        add(Tier::Quick, format!("open.{}", p.clone().lev().ratios().tag()), d, 800, 150, Box::new(t_open(p.clone().lev().ratios())));
+        add(Tier::Quick, format!("opp.{}", p.clone().ratios().tag()), d, 800, 150, Box::new(t_open2(pc.clone().ratios(), false)));
+        add(Tier::Quick, format!("inc.{}", p.clone().lev().tag()), d, 600, 150, Box::new(t_open2(pc.clone().lev(), true)));
+        add(Tier::Quick, format!("opp.{}", p.clone().lev().tag()), d, 600, 150, Box::new(t_open2(pc.clone().lev(), false)));
+        add(Tier::Quick, format!("opp.{}", p.tag()), d, 600, 150, Box::new(t_open2(pc.clone(), false)));
+        add(Tier::Quick, format!("depwd.{}", p.tag()), d, 400, 120, Box::new(t_depwd(pc.clone())));
+        add(Tier::Quick, format!("fund.withdraw.{}", p.tag()), d, 600, 150, Box::new(t_fund(pc.clone(), 1)));
+        add(Tier::Quick, format!("fund.increase.{}", p.tag()), d, 600, 150, Box::new(t_fund(pc.clone(), 2)));
+        add(Tier::Thorough, format!("open.{}", p.clone().lev().wide().tag()), d, 2000, 900, Box::new(t_open(p.clone().lev().wide())));
+        add(Tier::Thorough, format!("opp.sym.{}", p.clone().lev().tag()), d, 1500, 900, Box::new(t_open2(p.clone().lev(), false)));
+    }
+    let p = P::new(prop, Buy, seed);
+    add(Tier::Quick, format!("depwd.{}", p.clone().native().tag()), d, 400, 120, Box::new(t_depwd(p.clone().concrete_prefix().native())));
+    add(Tier::Quick, format!("open.{}", p.clone().lev().fees().tag()), d, 800, 150, Box::new(t_open(p.clone().lev().fees())));
+    v
+}
